@@ -270,6 +270,9 @@ pub fn handle_srandmember(storage: &Arc<StorageEngine>, db: usize, parts: &[Resp
         match &parts[2] {
             RespFrame::BulkString(Some(bytes)) => {
                 match String::from_utf8_lossy(bytes).parse::<i64>() {
+                    // A negative count asks for exactly that many elements: refuse what no
+                    // reply could hold instead of sizing an allocation by it
+                    Ok(n) if n < -(i32::MAX as i64) => return Ok(RespFrame::error("ERR value is out of range")),
                     Ok(n) => Some(n),
                     Err(_) => return Ok(RespFrame::error("ERR value is not an integer or out of range")),
                 }
